@@ -4,6 +4,7 @@ import (
 	"context"
 	"fmt"
 	"github.com/fullstorydev/grpchan/httpgrpc"
+	"github.com/fullstorydev/grpchan/inprocgrpc"
 	"io"
 	"math/rand"
 	"net"
@@ -11,6 +12,7 @@ import (
 	"os"
 	"runtime"
 	"strings"
+	"sync/atomic"
 	"time"
 
 	tpb "github.com/fullstorydev/grpchan/grpchantesting"
@@ -476,6 +478,55 @@ func runC05(e *core.Env, n int) {
 	})
 	checkLeaks(e, "after calls cancelled with a send and a receive outstanding")
 
+	// CloseSend called from another goroutine while SendMsg is inside the channel's (slow) cloner: whichever of the
+	// two takes effect first, nothing panics and both return
+	e.Cases("close-send-while-cloning", e.N(10, 80), func(i int, r *rand.Rand) {
+		gc := &gateCloner{entered: make(chan struct{}, 1), goOn: make(chan struct{})}
+		c := NewInproc(&Service{}, carrierOpt{cloner: gc})
+		defer c.Close()
+		kind := pick(r, ClientStream, Bidi)
+		sc := &Script{Kind: kind, Handler: []Op{{Op: "recvall"}, {Op: "send", Msg: &tpb.Message{Payload: []byte("answer")}}}}
+		run := c.Svc.NewRun(sc, c.Name)
+		defer c.Svc.Forget(run)
+		ctx, cancel := context.WithCancel(metadata.AppendToOutgoingContext(context.Background(), runKey, run.ID))
+		defer cancel()
+		st, err := c.CC.NewStream(ctx, kind.StreamDesc(), kind.Method())
+		if err != nil {
+			e.Inconclusive("C05 close-send-while-cloning: %v", err)
+			return
+		}
+		gc.armed.Store(true)
+		sendRes, closeRes := make(chan string, 1), make(chan string, 1)
+		go func() { sendRes <- guard(func() { st.SendMsg(&tpb.Message{Payload: []byte("being cloned")}) }) }()
+		select {
+		case <-gc.entered:
+		case <-time.After(watchdog):
+			e.Inconclusive("C05 close-send-while-cloning: the cloner was not reached")
+			close(gc.goOn)
+			return
+		}
+		go func() { closeRes <- guard(func() { st.CloseSend() }) }()
+		time.Sleep(time.Duration(1+r.Intn(3)) * time.Millisecond) // CloseSend has been called (it may be waiting for the send)
+		close(gc.goOn)
+		var pans []string
+		for _, ch := range []chan string{sendRes, closeRes} {
+			select {
+			case p := <-ch:
+				if p != "" {
+					pans = append(pans, p)
+				}
+			case <-time.After(watchdog):
+				e.Violate(c.Name+"/"+kind.String()+"/deadlock/close-send-while-cloning", "SendMsg (inside the cloner) and a concurrent CloseSend did not both return: "+parkedSummary(allStacks()), nil)
+				return
+			}
+		}
+		e.Eval("close-send-while-cloning|"+kind.String(), true)
+		if len(pans) > 0 {
+			e.Violate(c.Name+"/"+kind.String()+"/panic/close-send-while-cloning", "CloseSend was called while SendMsg was inside the channel's cloner: "+trunc(pans[0], 500), nil)
+		}
+		cancel()
+	})
+
 	// a send that the client side itself rejects (the message cannot be encoded), then CloseSend and a receive: the
 	// half-close still ends the request stream, so the handler (which consumes it and answers) and the client finish
 	// on their own - nothing has to be cancelled
@@ -934,4 +985,20 @@ func checkConnLeaks(e *core.Env, tr *http.Transport, when string) {
 		time.Sleep(100 * time.Millisecond)
 	}
 	e.Inconclusive("C05 connection check %s: connection goroutines kept changing for 60 s", when)
+}
+
+// gateCloner is a cloner that is slow on demand: once armed, its next Clone announces itself and waits.
+type gateCloner struct {
+	inprocgrpc.ProtoCloner
+	armed   atomic.Bool
+	entered chan struct{}
+	goOn    chan struct{}
+}
+
+func (g *gateCloner) Clone(in interface{}) (interface{}, error) {
+	if g.armed.CompareAndSwap(true, false) {
+		g.entered <- struct{}{}
+		<-g.goOn
+	}
+	return g.ProtoCloner.Clone(in)
 }
